@@ -129,6 +129,28 @@ def observe(ev, meta, fmt):
             "written": written, "listed": listed, "otherChanges": other}
 
 
+def map_stages(ev, meta):
+    """stage events of the CLI hook with file indices / paths replaced by model identities (plumbing: the order of `meta` is load order)"""
+    nschema = sum(1 for m in meta if m["id"][0] == "schema")
+    proj = ev["dir"].rstrip("/") + "/"
+    out = []
+    for s in ev.get("stages", []):
+        k = s["stage"]
+        if k in ("parseSchemaStart", "parseSchemaOk"):
+            out.append({"stage": k, "i": s["file"] + 1, "j": 0, "name": "", "out": ["none"], "code": -1})
+        elif k in ("parseOpStart", "parseOpOk"):
+            out.append({"stage": k, "i": 0, "j": s["file"] - nschema + 1, "name": "", "out": ["none"], "code": -1})
+        elif k == "command":
+            out.append({"stage": k, "i": 0, "j": 0, "name": s["name"], "out": ["none"], "code": -1})
+        elif k == "write":
+            out.append({"stage": k, "i": 0, "j": 0, "name": "", "out": file_id_out(s["path"], proj), "code": -1})
+        elif k == "exit":
+            out.append({"stage": k, "i": 0, "j": 0, "name": "", "out": ["none"], "code": s["code"]})
+        else:
+            out.append({"stage": k, "i": 0, "j": 0, "name": "", "out": ["none"], "code": -1})
+    return out
+
+
 def file_id_out(path, proj):
     path = path.replace("\\/", "/")
     if proj in path:
@@ -172,9 +194,13 @@ def run(ctx, res):
     events = []
     for r in runs:
         p, fmt, m = metas[r["id"]]
-        events.append({"ev": "CliRun", "project": p, "format": fmt, "files": m, "obs": observe(r, m, fmt)})
+        events.append({"ev": "CliRun", "project": p, "format": fmt, "files": m, "obs": observe(r, m, fmt), "stages": map_stages(r, m)})
     o = vlib.validate_trace("Trace_C18", "Trace_C18.cfg", events, workdir=ctx.work, timeout=2400)
     res.add_trace(o)
+    st = [s for s in o.stats if "stages" in s]
+    if any(s["stages"] == 0 and not s["panicked"] for s in st):
+        raise vlib.ToolError("a CLI run recorded no stage events: the CLI was not built with --cfg nitrogql_verif")
+    res.extra["stage_events_validated"] = sum(s["stages"] for s in st)
     res.traces = o.events
     res.evaluations = o.events
     res.distinct_nontrivial = sum(1 for (p, fmt, m) in metas if any(p["schema"][i] for i in range(len(p["schema"]))) or any(f for f in p["ops"]))
@@ -192,3 +218,31 @@ def run(ctx, res):
                       "trace_action_coverage": o.coverage})
     res.assumptions = ["locations in the human format and in command-error messages are read with the pattern <path>.graphql:<line>:<col> (1-based)",
                        "the orphan-extension sub-stage reports only its first error (modelled: at least one offending file named)"]
+
+
+def selftest(ctx):
+    """Binding demonstration for the stage trace: drop one hook event / reorder two / change the exit code; each must be rejected."""
+    import copy
+    vlib.build_harness()
+    vlib.build_cli()
+    p = {"schema": [[]], "ops": [[], []], "commands": ["check", "generate"], "gen": ["resolvers"]}
+    c, m = materialise(p, "json", 0)
+    vlib.write_ndjson(ctx.path("cases.ndjson"), [c])
+    vlib.run_harness(["cliproj", vlib.CLI_BIN, ctx.path("cases.ndjson"), ctx.path("runs.ndjson"), ctx.path("proj"), "1"])
+    r = vlib.read_ndjson(ctx.path("runs.ndjson"))[0]
+    good = {"ev": "CliRun", "project": p, "format": "json", "files": m, "obs": observe(r, m, "json"), "stages": map_stages(r, m)}
+    muts = []
+    a = copy.deepcopy(good)
+    a["stages"] = [s for s in a["stages"] if s["stage"] != "checkStart"]          # a hook removed
+    b = copy.deepcopy(good)
+    i = next(k for k, s in enumerate(b["stages"]) if s["stage"] == "generateStart")
+    j = next(k for k, s in enumerate(b["stages"]) if s["stage"] == "checkOk")
+    b["stages"][i], b["stages"][j] = b["stages"][j], b["stages"][i]                 # generation before the check finished
+    d = copy.deepcopy(good)
+    d["stages"] = [s for s in d["stages"] if not (s["stage"] == "write" and s["out"] == ["resolvers"])]      # an output never written
+    o = vlib.validate_trace("Trace_C18", "Trace_C18.cfg", [good, a, b, d], workdir=ctx.work, nshards=1)
+    got = [i["l"] for i in o.items if i["cls"] == "stage-trace"]
+    ok = sorted(got) == [2, 3, 4] and not [i for i in o.items if i["l"] == 1]
+    print("SELFTEST C18: unmodified run accepted, 3 corrupted stage traces, rejected at events %s -> %s" % (sorted(got), "ok" if ok else "FAILED"))
+    ctx.cleanup()
+    return 0 if ok else 2
